@@ -2,6 +2,7 @@ package main
 
 import (
 	"fmt"
+	"go/token"
 	"go/types"
 	"strings"
 
@@ -39,6 +40,9 @@ func runC18(c *Ctx) {
 	checkEviction(c)
 	// concurrent commits get distinct times: one clock instance per name, never replaced, created atomically (shared with C05)
 	checkClockRebuild(c)
+	// every acknowledged operation is stored: what Commit takes off the staging list goes into a pack (shared with C04)
+	checkAuthorSplit(c)
+	checkGuardedAliasesAndSnapshot(c, lw)
 	fns := lockScopeFns(w)
 	exemptHold := map[string]string{
 		"cache.CachedEntityBase.Lock": "documented: locks an evicted instance forever so that stale users block instead of diverging",
@@ -458,4 +462,133 @@ func checkExcerptUnderLock(c *Ctx, lw *lockWorld, fns []*ssa.Function) {
 		}
 	}
 
+}
+
+
+// R18.10: two more ways out of the lock discipline.
+//   - a map or slice read from a guarded field keeps being guarded: every use of the value loaded (range, look-up,
+//     len, update) happens while the lock is still held — releasing it first and iterating the alias afterwards
+//     is iterating the live structure unprotected;
+//   - withSnapshot.Compile tests for a missing snapshot and stores the compiled one under one hold of its mutex:
+//     compiling outside lets a concurrent Append be applied to a snapshot that is then overwritten by the stale one.
+func checkGuardedAliasesAndSnapshot(c *Ctx, lw *lockWorld) {
+	w := c.W
+	c.Doc("R18.10", "in package cache, a value loaded from SubCache.excerpts / SubCache.cached is only used (range, look-up, len, store) where the mutex it was loaded under is still held; withSnapshot.Compile's test of ws.snap and its store are in one locked region")
+	n := 0
+	for _, fn := range w.ModFns {
+		if fnPkgPath(fn) != modPath+"/cache" || isInstance(fn) || w.isTestHelper(fn) || len(fn.Blocks) == 0 {
+			continue
+		}
+		root := fn
+		for root.Parent() != nil {
+			root = root.Parent()
+		}
+		if funcName(root) == "cache.SubCache.Build" {
+			continue // runs before the cache is published
+		}
+		li := lw.info(fn)
+		if li.NOps == 0 {
+			continue
+		}
+		for _, b := range fn.Blocks {
+			for _, ins := range b.Instrs {
+				ld, ok := ins.(*ssa.UnOp)
+				if !ok || ld.Op != token.MUL {
+					continue
+				}
+				fa, ok := ld.X.(*ssa.FieldAddr)
+				if !ok || (fieldName(fa) != "excerpts" && fieldName(fa) != "cached") {
+					continue
+				}
+				if _, isMap := ld.Type().Underlying().(*types.Map); !isMap {
+					continue
+				}
+				mkey := valueKey(fa.X) + ".mu"
+				if !li.holds(ld, mkey, false) {
+					continue // R18.4 reports unguarded loads
+				}
+				// the uses of the loaded value, through phis
+				seen := map[ssa.Value]bool{}
+				var uses func(v ssa.Value)
+				uses = func(v ssa.Value) {
+					if seen[v] {
+						return
+					}
+					seen[v] = true
+					for _, r := range *v.Referrers() {
+						switch x := r.(type) {
+						case *ssa.Phi:
+							uses(x)
+						case *ssa.Range, *ssa.Lookup, *ssa.MapUpdate:
+							n++
+							c.Sites++
+							if !li.holds(x.(ssa.Instruction), mkey, false) {
+								c.Violate("R18.10", funcName(fn)+":"+fieldName(fa)+"-alias-used-unlocked", w.InstrPos(x.(ssa.Instruction)), "the map read from "+fieldName(fa)+" under "+mkey+" is used here after the lock was released: a concurrent store into it makes the runtime abort ('concurrent map iteration and map write')")
+							}
+						case *ssa.Call:
+							if bi, isB := x.Common().Value.(*ssa.Builtin); isB && bi.Name() == "len" {
+								n++
+								c.Sites++
+								if !li.holds(x, mkey, false) {
+									c.Violate("R18.10", funcName(fn)+":"+fieldName(fa)+"-alias-used-unlocked", w.InstrPos(x), "len of the map read from "+fieldName(fa)+" is taken after the lock was released")
+								}
+							}
+						}
+					}
+				}
+				uses(ld)
+			}
+		}
+	}
+	c.Check(n >= 10, "R18.10", "expected:guarded-map-uses", "cache", fmt.Sprintf("%d uses of maps loaded from guarded fields, all under the lock", n), fmt.Sprintf("only %d uses of guarded maps found (reference ≥ 20)", n))
+	// withSnapshot.Compile
+	cf := w.Method("cache", "withSnapshot", "Compile")
+	if cf == nil {
+		c.Undecided("R18.10", "anchor:withSnapshot.Compile", "cache", "not found")
+		return
+	}
+	cf = bodyOf(cf)
+	c.seeFn(funcName(cf))
+	li := lw.info(cf)
+	var test ssa.Instruction
+	var store *ssa.Store
+	for _, b := range cf.Blocks {
+		for _, ins := range b.Instrs {
+			switch x := ins.(type) {
+			case *ssa.UnOp:
+				if fa, ok := x.X.(*ssa.FieldAddr); ok && x.Op == token.MUL && fieldName(fa) == "snap" && test == nil {
+					test = x
+				}
+			case *ssa.Store:
+				if fa, ok := x.Addr.(*ssa.FieldAddr); ok && fieldName(fa) == "snap" {
+					store = x
+				}
+			}
+		}
+	}
+	if test == nil || store == nil {
+		c.Info("R18.10", "withSnapshot.Compile:test-and-store-under-one-hold", w.FnPos(cf), "no test/store of ws.snap found: not interpreted")
+		return
+	}
+	c.Sites++
+	fa := store.Addr.(*ssa.FieldAddr)
+	mkey := valueKey(fa.X) + ".mu"
+	ok := li.holds(test, mkey, true) && li.holds(store, mkey, true)
+	why := "the test or the store of ws.snap happens without " + mkey + " held for writing"
+	if ok {
+		for _, cl := range Calls(cf) {
+			if op, isOp := asLockOp(cl.Instr.Common()); isOp && op.Delta < 0 && op.Key == mkey {
+				if _, isDefer := cl.Instr.(*ssa.Defer); isDefer {
+					continue
+				}
+				a, _, _ := pathSearch(cf, test, nil, func(i ssa.Instruction) bool { return i == cl.Instr }, func(i ssa.Instruction) bool { return i == ssa.Instruction(store) }, false)
+				b2, _, _ := pathSearch(cf, cl.Instr, nil, func(i ssa.Instruction) bool { return i == ssa.Instruction(store) }, nil, false)
+				if a && b2 {
+					ok, why = false, "the mutex is released at "+w.InstrPos(cl.Instr)+" between the test for a missing snapshot and the store of the compiled one"
+				}
+			}
+		}
+	}
+	c.Check(ok, "R18.10", "withSnapshot.Compile:test-and-store-under-one-hold", w.InstrPos(store), "ws.snap is tested and set under one hold of "+mkey,
+		why+": an operation appended (and applied to nothing, the snapshot being absent) while the history is compiled outside the lock is missing from the snapshot stored afterwards — the acknowledged edit never shows in the cache")
 }
